@@ -2226,12 +2226,13 @@ func (err *SchemaError) Error() string {
 		buf.WriteString("\nSchema:\n  ")
 		encoder := json.NewEncoder(buf)
 		encoder.SetIndent("  ", "  ")
-		if err := encoder.Encode(err.Schema); err != nil {
-			panic(err)
+		if encErr := encoder.Encode(err.Schema); encErr != nil {
+			fmt.Fprintf(buf, "%+v\n", err.Schema) // never panic while an error is being reported
 		}
 		buf.WriteString("\nValue:\n  ")
-		if err := encoder.Encode(err.Value); err != nil {
-			panic(err)
+		if encErr := encoder.Encode(err.Value); encErr != nil {
+			// a value JSON cannot express: NaN, ±Inf, a YAML mapping with non-string keys
+			fmt.Fprintf(buf, "%v\n", err.Value)
 		}
 	}
 
